@@ -133,11 +133,12 @@ def run(ctx: Ctx):
     for m in common.scheme_models(ctx).values():
         ok = norm(m.seq) == "ode.sorted_assignments(remove_unused=remove_unused)"
         ctx.check(ok, "R12.b", m.func.key("sequence"), "iterates ode.sorted_assignments(remove_unused=remove_unused)", f"{m.func.name} iterates {norm(m.seq)}", m.func.where(m.loop))
-    sch = cgc.methods["scheme"]
-    fparam = sch.params[1]
-    bcall = [c for c in ast.walk(sch.node) if isinstance(c, ast.Call) and isinstance(c.func, ast.Name) and c.func.id == fparam]
-    ok = bool(bcall) and call_kw(bcall[0], "remove_unused") is not None and norm(call_kw(bcall[0], "remove_unused")) == "self.remove_unused"
-    ctx.check(ok, "R12.b", sch.key("forward"), "scheme builder receives remove_unused=self.remove_unused", "CodeGenerator.scheme does not pass remove_unused=self.remove_unused to the builder", sch.where())
+    sch, bcall, _sv = common.scheme_builder_call(ctx)
+    if bcall is None:
+        ctx.undecided("R12.b", sch.key("forward"), "CodeGenerator.scheme: the call of the scheme builder is not found in what the method computes", sch.where())
+    else:
+        ok = dict(bcall[3]).get("remove_unused") == ("sym", "self.remove_unused")
+        ctx.check(ok, "R12.b", sch.key("forward"), "scheme builder receives remove_unused=self.remove_unused", "CodeGenerator.scheme does not pass remove_unused=self.remove_unused to the builder", sch.where())
 
     # ---- R12.c same layout -----------------------------------------------------------------------
     ctx.rule("R12.c", "state and parameter slot layouts are the same with and without removal (STATE and PARAM slot families, remove_unused is a post-sort filter over intermediates)", floor=10)
